@@ -3,6 +3,59 @@ From Coq Require Import List NArith ZArith Bool.
 Import ListNotations.
 From Verif Require Import Base.Val C18.Fs C47.Model_C47 C47.Spec_C47 C47.Proofs_C47.
 
-Theorem fresh_idem : forall s, fresh (fresh s) = fresh s.
-Proof. exact fresh_idem_proof. Qed.
-Print Assumptions fresh_idem.
+(* a sync that does not install a new tree (failed download, failed unpack, HTTP error, nothing
+   new) leaves the repository untouched — at the end and in every crash state on the way,
+   for the repaired and for the pinned code *)
+Theorem failed_sync_untouched :
+  forall fixed force sv tar chunk s0 b s',
+    base s0 = Some b ->
+    snd (sync fixed force sv tar chunk s0) <> Updated ->
+    crash_of (fst (sync fixed force sv tar chunk s0)) (fresh s0) s' ->
+    base s' = Some b.
+Proof. exact failed_sync_untouched_proof. Qed.
+Print Assumptions failed_sync_untouched.
+
+(* every crash state of an updating sync holds the old or the new tree at the path — except
+   the one state between the two renames (known finding rename-window) *)
+Theorem crash_old_or_new_partial :
+  forall force sv tar chunk s0 t0 s',
+    recoverable s0 -> base s0 = Some (SDir t0) -> meta_free (fst tar) ->
+    snd (sync true force sv tar chunk s0) = Updated ->
+    crash_of (fst (sync true force sv tar chunk s0)) (fresh s0) s' ->
+    old_or_new (Some (SDir t0)) (fst tar) s' \/ window t0 (fst tar) s'.
+Proof. exact crash_old_or_new_partial_proof. Qed.
+Print Assumptions crash_old_or_new_partial.
+
+(* the full statement is false of the faithful model: the window state is reachable *)
+Theorem crash_old_or_new_refuted : ~ crash_old_or_new_statement.
+Proof. exact crash_old_or_new_refuted_proof. Qed.
+Print Assumptions crash_old_or_new_refuted.
+
+(* whatever a crash leaves is again a state a sync can start from *)
+Theorem crash_preserves_recoverable :
+  forall fixed force sv tar chunk s s',
+    recoverable s -> crash_of (fst (sync fixed force sv tar chunk s)) (fresh s) s' -> recoverable s'.
+Proof. exact crash_preserves_recoverable_proof. Qed.
+Print Assumptions crash_preserves_recoverable.
+
+(* from any such state the (repaired) sync with a working server and unpacker runs to the end:
+   all its steps apply, no staging directory is left, and the path holds the complete new tree
+   (or, when the server says nothing changed, the previous tree — put back if it was parked) *)
+Theorem next_sync_completes :
+  forall force sv tar chunk s,
+    recoverable s -> good_srv sv -> snd tar = true -> meta_free (fst tar) ->
+    exists sf, run_opt (fst (sync true force sv tar chunk s)) (fresh s) = Some sf /\ clean sf /\
+      ((snd (sync true force sv tar chunk s) = Updated /\ holds_new (fst tar) sf) \/
+       (snd (sync true force sv tar chunk s) = Unchanged /\ base sf = logical s)).
+Proof. exact next_sync_completes_proof. Qed.
+Print Assumptions next_sync_completes.
+
+(* ... after any number of syncs interrupted at any points *)
+Theorem next_sync_after_any_history : next_sync_statement true.
+Proof. exact next_sync_after_any_history_proof. Qed.
+Print Assumptions next_sync_after_any_history.
+
+(* the pinned code (before the repair) violates it: stale staging directories *)
+Theorem legacy_next_sync_refuted : ~ next_sync_statement false.
+Proof. exact legacy_next_sync_refuted_proof. Qed.
+Print Assumptions legacy_next_sync_refuted.
